@@ -362,7 +362,7 @@ class _Inliner:
             a = args[p]
             if _simple_arg(a) and p not in stored:
                 mapping[p] = a
-            elif isinstance(a, ast.Name) and p in stored and self._dead_after(a.id, call):
+            elif isinstance(a, ast.Name) and p in stored and (self._dead_after(a.id, call) or self._overwritten_by_result(a.id, call)):
                 # the helper re-binds its parameter; the caller's variable is not read again after the call, so the helper may
                 # just as well work on that variable (this is what the code looked like before the helper was extracted)
                 rename[p] = a.id
@@ -373,6 +373,19 @@ class _Inliner:
             if v not in rename and v not in params:
                 rename[v] = v + suf
         return pre, mapping, rename
+
+    def _overwritten_by_result(self, name: str, call: ast.Call) -> bool:
+        """`name = h(.., name, ..)` outside any try block: the caller's variable is replaced by the result anyway, so the helper may
+        work on it directly"""
+        st = getattr(self, 'cur_stmt', None)
+        if not (isinstance(st, ast.Assign) and st.value is call and len(st.targets) == 1 and isinstance(st.targets[0], ast.Name)
+                and st.targets[0].id == name):
+            return False
+        fn = self.cur_fn
+        for n in ast.walk(fn) if fn is not None else []:
+            if isinstance(n, ast.Try) and any(x is st for b in (n.body, n.orelse) for y in b for x in ast.walk(y)):
+                return False
+        return True
 
     def _dead_after(self, name: str, call: ast.Call) -> bool:
         fn = self.cur_fn
@@ -410,6 +423,7 @@ class _Inliner:
             call, kind = st.value, 'assign'
         elif isinstance(st, ast.AnnAssign) and isinstance(st.value, ast.Call) and st.simple:
             call, kind = st.value, 'annassign'
+        self.cur_stmt = st
         if call is None and isinstance(st, ast.If):
             return self._inline_guard(st, caller_cls, caller_self)
         if call is None:
